@@ -869,11 +869,73 @@ def run(ctx):
                 if bad:
                     ctx.spec_fail("compute_sequence_inf", bad, {"problem": pb.wire(), "ts": ts, "x0": ratm(x0m), "W": ratm(W)})
 
+    run_init(ctx, cases, LQ)
     run_histories(ctx, cases, LQ)
     run_rblq(ctx, cases, RBLQ, LQ)
     run_nnash(ctx, cases, nnash, LQ)
     run_markov(ctx, cases, LQMarkov, LQ)
     ctx.run_cases(cases)
+
+
+# ----------------------------------------------------------------------------------------------
+# LQ.__init__: validation branch and initial state (includes the malformed stream: noise with beta >= 1, T falsy)
+
+
+def run_init(ctx, cases, LQ):
+    rng = ctx.rng
+    combos = [(Tk, Ck, b) for Tk in ("none", "zero", "fin") for Ck in ("none", "zero", "nonzero")
+              for b in (F(1, 2), F(1), F(3, 2))]
+    rng.shuffle(combos)
+    for (Tk, Ck, b) in combos[:ctx.n(14, 27)]:
+        n, k = rng.randint(1, 3), rng.randint(1, 2)
+        Q, R = madd(psd(ctx, k), eye(k)), madd(psd(ctx, n), eye(n))
+        A = [[F(rng.choice([-1, 0, 1, 1]), 2) for _ in range(n)] for _ in range(n)]
+        B = [[F(rng.choice([0, 1, 2]), 2) for _ in range(k)] for _ in range(n)]
+        jj = rng.randint(1, 2)
+        C = None if Ck == "none" else zeros(n, jj)
+        if Ck == "nonzero":
+            C[rng.randrange(n)][rng.randrange(jj)] = F(rng.choice([-1, 1, 3]), 2)
+        T = {"none": None, "zero": 0, "fin": rng.randint(1, 4)}[Tk]
+        Rf = psd(ctx, n)
+        kw = {}
+        if C is not None:
+            kw["C"] = tofloat(C)
+        if T is not None:
+            kw["T"] = T
+            kw["Rf"] = tofloat(Rf)
+        beta = float(b) if rng.random() < 0.7 or b.denominator != 1 else int(b)
+        try:
+            lq = LQ(tofloat(Q), tofloat(R), tofloat(A), tofloat(B), beta=beta, **kw)
+            out = "P=%s d=%s F=%s T=%d" % ("None" if lq.P is None else fxm(lq.P), "None" if lq.d is None else fx(lq.d),
+                                           "None" if lq.F is None else "set", lq.T or 0)
+            ctx.count("init:accepted")
+        except ValueError:
+            out = "ERR:ValueError"
+            ctx.count("init:ValueError")
+        # spec (the documented rule): rejected iff infinite horizon, noise and beta >= 1
+        should_reject = (not T) and C is not None and maxabs(C) != 0 and b >= 1
+        if should_reject != (out == "ERR:ValueError"):
+            ctx.spec_fail("init_validation", "LQ(T=%r, C %s, beta=%s): %s" % (T, Ck, b, out), {"T": T, "C": Ck, "beta": rat(b)})
+        Cw = C if C is not None else zeros(n, 1)
+        pbw = Prob(Q, R, A, B, Cw, zeros(k, n), b)
+
+        def cmp(model, impl):
+            if model.startswith("ERR") or impl.startswith("ERR"):
+                return None if model == impl else "outputs differ"
+            a_, b_ = kvparse(model), kvparse(impl)
+            for key in ("d", "F", "T"):
+                va, vb = a_[key], b_[key]
+                if key == "d" and va != "None" and vb != "None":
+                    va, vb = str(parse_rat(va)), str(parse_rat(vb))
+                if va != vb:
+                    return "%s: %s vs %s" % (key, va, vb)
+            if (a_["P"] == "None") != (b_["P"] == "None"):
+                return "P: None-ness differs"
+            if a_["P"] != "None" and close_m(parse_ratm(a_["P"]), parse_ratm(b_["P"]), 0):
+                return "P differs"
+            return None
+        cases.append(Case("C07 init %s T=%d%s" % (pbw.wire(), T or 0, (" Rf=%s" % ratm(Rf)) if T else ""), out, cmp=cmp,
+                          tag="init", nontrivial=(Ck != "none")))
 
 
 # ----------------------------------------------------------------------------------------------
@@ -1406,6 +1468,65 @@ def run_markov(ctx, cases, LQMarkov, LQ):
         impl = "Ps=%s Fs=%s ds=%s" % (showms([Ps[s] for s in range(m)]), showms([Fs[s] for s in range(m)]),
                                       fxm([[float(v)] for v in ds]))
         cases.append(Case(line, impl, cmp=cmp_fields(ENV_FIX, list_keys=("Ps", "Fs"), matrix_keys=("ds",)), tag="markov-step"))
+        # ---- LQMarkov.compute_sequence on recorded shocks; the simulated regime path is an input of the model ----
+        for ts in ([None] if it % 5 == 0 else []) + [ctx.rng.randint(1, 10)]:
+            Te = ts if ts else 100
+            nn = len(probs[0][1])
+            W = [[F(ctx.rng.randint(-8, 8), 4) for _ in range(Te + 1)]]          # j = 1 in this generator
+            x0 = [[F(ctx.rng.randint(-4, 4), 2)] for _ in range(nn)]
+            try:
+                xp, up, wp, st = lqm.compute_sequence(np.array([float(v[0]) for v in x0]), ts_length=ts,
+                                                      random_state=FixedNormals(tofloat(W)))
+            except Exception as e:  # noqa: BLE001
+                ctx.count("mkvseq:raised-" + type(e).__name__)
+                continue
+            st = [int(v) for v in st]
+            ctx.count("mkvseq:ts-none" if ts is None else "mkvseq:ts")
+            if len(set(st)) > 1:
+                ctx.count("mkvseq:regime-switches")
+            mode = "rat" if Te <= 12 else "float"
+            enc, encs = (ratm, rat) if mode == "rat" else (fxm, fx)
+            conv = (lambda mx: mx) if mode == "rat" else tofloat
+            req = "C07 %s mkvseq m=%d beta=%s " % (mode, m, encs(beta)) + " ".join(
+                "Q%d=%s R%d=%s A%d=%s B%d=%s C%d=%s N%d=%s F%d=%s" % (
+                    s_, enc(conv(p_[0])), s_, enc(conv(p_[1])), s_, enc(conv(p_[2])), s_, enc(conv(p_[3])), s_, enc(conv(p_[4])),
+                    s_, enc(conv(p_[5])), s_, enc(conv(fm(Fs[s_]))))
+                for s_, p_ in enumerate(probs)) + " st=%s x0=%s W=%s" % (",".join(str(v) for v in st), enc(conv(x0)), enc(conv(W)))
+            cases.append(Case(req, "x=%s u=%s" % (showms([colm(xp[:, t]) for t in range(xp.shape[1])]),
+                                                   showms([colm(up[:, t]) for t in range(up.shape[1])])),
+                              cmp=cmp_fields(ENV_PATH, list_keys=("x", "u")), tag="mkvseq-" + mode))
+            # spec (Fractions): the law of motion the code implements (arrival regime) ...
+            bad, doc_bad = None, 0
+            if xp.shape != (nn, Te + 1) or up.shape != (len(probs[0][0]), Te) or len(st) != Te + 1 or not np.array_equal(wp, tofloat(W)):
+                bad = "shapes"
+            else:
+                xs = [fm(colm(xp[:, t])) for t in range(Te + 1)]
+                us = [fm(colm(up[:, t])) for t in range(Te)]
+                if close_m(xs[0], x0, 0):
+                    bad = "x_0 != x0"
+                for t in range(Te):
+                    if bad:
+                        break
+                    w_ = close_m(us[t], scal(F(-1), mm(fm(Fs[st[t]]), xs[t])), ENV_PATH)
+                    if w_:
+                        bad = "u_%d != -F(s_%d) x_%d: %s" % (t, t, t, w_)
+                        break
+                    step = lambda s_: madd(madd(mm(probs[s_][2], xs[t]), mm(probs[s_][3], us[t])), mm(probs[s_][4], [[W[0][t + 1]]]))
+                    w_ = close_m(xs[t + 1], step(st[t + 1]), ENV_PATH)
+                    if w_:
+                        bad = "x_%d != A(s_%d) x + B(s_%d) u + C(s_%d) w: %s" % (t + 1, t + 1, t + 1, t + 1, w_)
+                        break
+                    # ... and the documented one (departure regime): counted, a finding only if listed
+                    if close_m(xs[t + 1], step(st[t]), ENV_PATH):
+                        doc_bad += 1
+            if bad:
+                ctx.spec_fail("lqmarkov_sequence", "LQMarkov.compute_sequence: " + bad,
+                              {"Pi": ratm(Pi), "beta": rat(beta), "st": st, "x0": ratm(x0), "W": ratm(W)})
+            if doc_bad:
+                ctx.count("mkvseq:steps-violating-documented-law(departure-regime)", doc_bad)
+                if "lqmarkov_sequence_regime_index" in ctx.known:
+                    ctx.spec_fail("lqmarkov_sequence_regime_index", "x_{t+1} uses the matrices of regime s_{t+1}, the docstring "
+                                  "and the Riccati system use s_t (%d steps differ)" % doc_bad, {"st": st})
         if identical:
             Q, R, A, B, C, N = probs[0]
             lq = LQ(tofloat(Q), tofloat(R), tofloat(A), tofloat(B), C=tofloat(C), N=tofloat(N), beta=float(beta))
